@@ -872,6 +872,24 @@ func (t *Table) extractRow(row interface{}) Filter {
 	return f
 }
 
+// driverValues serializes the values of a filter with the Valuer of their
+// columns, the way makeWhere does for the WHERE clause.
+func (t *Table) driverValues(filter Filter) (Filter, error) {
+	f := make(Filter, len(filter))
+	for name, value := range filter {
+		column, ok := t.ColumnsByName[name]
+		if !ok {
+			return nil, fmt.Errorf("unknown column %s", name)
+		}
+		v, err := column.Descriptor.Valuer(reflect.ValueOf(value)).Value()
+		if err != nil {
+			return nil, fmt.Errorf("sqlgen: filter error for `%s`.`%s`: %v", t.Name, column.Name, err)
+		}
+		f[name] = v
+	}
+	return f, nil
+}
+
 // driverValuesEqual returns true if two driver.Values are identical.
 // driver.Value must be one of the following types
 //
